@@ -363,18 +363,21 @@ def loopback_case(kind, values, mode):
             conn, _ = srv.accept()
             conn.settimeout(10)
             rq = refpdu.parse_pdu(_read_pdu(conn))
+            # '-reserved': a foreign implementation that does not zero its reserved fields (not tested on receipt)
+            rsv = 0x2A if mode.endswith('-reserved') else 0
             if kind == 'reject':
-                conn.sendall(refpdu.enc_pdu({'t': 3, 'result': values[0], 'source': values[1], 'reason': values[2]}))
+                conn.sendall(refpdu.enc_pdu({'t': 3, 'r1': rsv, 'r2': rsv, 'result': values[0], 'source': values[1], 'reason': values[2]}))
                 conn.close()
                 return
             pcs = [it for it in rq['items'] if it['t'] == 0x20]
-            conn.sendall(refpdu.enc_pdu(fd.ac_spec([(it['id'], 0, svc.IMPLICIT) for it in pcs], 16384)))
+            conn.sendall(refpdu.enc_pdu(fd.ac_spec([(it['id'], 0, svc.IMPLICIT) for it in pcs], 16384, reserved=rsv * 0x101,
+                                                   ver=0x0003 if rsv else 1)))
             req = refpdu.parse_pdu(_read_pdu(conn))
             cmd, _ = refcmd.wellformed(req['pdvs'][0]['data'][1:])
             rsp = refcmd.encode({0x0002: svc.VERIFICATION, 0x0100: 0x8030, 0x0120: cmd.get(0x0110), 0x0800: 0x0101, 0x0900: 0})
-            rsp_pdu = refpdu.enc_pdu({'t': 4, 'pdvs': [{'id': req['pdvs'][0]['id'], 'data': b'\x03' + rsp}]})
-            abort = refpdu.enc_pdu({'t': 7, 'source': values[0], 'reason': values[1]})
-            if mode == 'coalesced':
+            rsp_pdu = refpdu.enc_pdu({'t': 4, 'r': rsv, 'pdvs': [{'id': req['pdvs'][0]['id'], 'data': b'\x03' + rsp}]})
+            abort = refpdu.enc_pdu({'t': 7, 'r1': rsv, 'r2': rsv, 'r3': rsv, 'source': values[0], 'reason': values[1]})
+            if mode.startswith('coalesced'):
                 conn.sendall(rsp_pdu + abort)
             else:
                 conn.sendall(rsp_pdu)
@@ -504,7 +507,8 @@ def loopback_release_in_flight(n_late):
 def run_loopback(ctx, n_rounds):
     from .. import loopback as lb
     cases = [('abort', (2, 6), 'coalesced'), ('abort', (0, 0), 'coalesced'), ('abort', (2, 1), 'separate'),
-             ('abort', (1, 9), 'coalesced'), ('reject', (1, 1, 3), 'immediate'), ('reject', (2, 3, 2), 'immediate')]
+             ('abort', (1, 9), 'coalesced'), ('reject', (1, 1, 3), 'immediate'), ('reject', (2, 3, 2), 'immediate'),
+             ('abort', (2, 4), 'coalesced-reserved'), ('abort', (0, 5), 'separate-reserved'), ('reject', (1, 1, 7), 'immediate-reserved')]
     for r in range(n_rounds):
         for kind, values, mode in cases:
             try:
